@@ -15,16 +15,18 @@ from symex.core import SCx, SInt, SReal, all_, and_, any_, implies, ite, not_, o
 from symex.harness import Case, Twin
 
 PROPERTY = "C07"
-FUNCTIONS = ["ibldsp.fourier.fshift", "ibldsp.utils.parabolic_max"]
+FUNCTIONS = ["ibldsp.fourier.fshift", "ibldsp.utils.parabolic_max", "ibldsp.waveforms.wave_shift_corrmax"]
 ASSUMPTIONS = [
     "scipy.fft.rfft / irfft are replaced by the exact DFT / inverse DFT for lengths 2 and 4 (twiddles 1, -i, -1, i); np.exp(1j * theta * s) is evaluated exactly when theta*s is a multiple of pi/2 (integer shifts), "
     "both validated against the real SciPy on random data on every run; signal samples are free reals",
     "parabolic_max: x[i] = a - b (i - p)^2 with b > 0 and |p - imax| < 1/2 (symbolic a, b, p), non-linear real arithmetic",
+    "wave_shift_corrmax: scipy.signal.correlate(mode='same') is replaced by the exact direct-sum cross-correlation (validated against SciPy on every run), fshift by a probe recording the requested shift; "
+    "waveform = three free real samples (middle one >= 1) on a zero baseline of length n in 7..15, copy delayed by a whole number of samples that keeps it inside the window",
 ]
-OUTSIDE = ["all other lengths, fractional shifts vs the analytic delay (FFT numerics)", "wave_shift_corrmax / shift_waveform accuracy (cross-correlation numerics)"]
+OUTSIDE = ["all other lengths, fractional shifts vs the analytic delay (FFT numerics)", "wave_shift_corrmax on fractional delays / arbitrary waveforms and shift_waveform accuracy (cross-correlation + FFT numerics)"]
 EXPLANATION = "signal samples symbolic, shifts are enumerated integers; the whole fshift body runs on exact complex pairs."
 LEVEL_TEXT = ("For ALL real signals of length 2 and 4 (1-D, and 2-D along either axis), every integer shift in (-n, n), scalar and per-trace, z3 decides: fshift == circular roll, zero shift == identity, successive shifts add, per-trace shifts equal stacked 1-D calls, "
-              "shape preserved, real input left untouched (dtype preservation is only checked by the replays: the symbolic arrays are dtype-less); parabolic_max returns the vertex of every sampled parabola (1-D and 2-D) and the sample itself at the two edges.")
+              "shape preserved, real input left untouched (dtype preservation is only checked by the replays: the symbolic arrays are dtype-less); parabolic_max returns the vertex of every sampled parabola (1-D and 2-D) and the sample itself at the two edges; wave_shift_corrmax returns exactly the applied whole-sample delay and asks fshift for its opposite (all three-sample waveforms, n in 7..15).")
 LEVEL_NOTE = "Trusted: z3 (LRA/NRA), the exact small-n DFT stub, SymArray model."
 
 _EXACT = {0: (1, 0), 1: (0, 1), 2: (-1, 0), 3: (0, -1)}
@@ -114,6 +116,16 @@ def setup():
     arrays.patch_module(f)
     arrays.patch_module(u)
     f.scipy = stubs.Namespace(scipy, fft=stubs.Namespace(scipy.fft, rfft=rfft_stub, irfft=irfft_stub))
+
+    import ibldsp.waveforms as w
+    arrays.patch_module(w)
+    w.scipy = stubs.Namespace(scipy, signal=stubs.Namespace(scipy.signal, correlate=_correlate_same))
+    w.parabolic_max = u.parabolic_max
+    rng = np.random.default_rng(int(__import__("os").environ.get("VERIF_SEED", "0") or 0))
+    for n in range(3, 14):
+        a, b = rng.normal(size=n), rng.normal(size=n)
+        if not np.allclose(np.array(_correlate_same(a, b, mode="same"), dtype=float), scipy.signal.correlate(a, b, mode="same")):
+            raise core.Unsupported("exact cross-correlation stub disagrees with SciPy")
 
     class _NPf:
         exp = staticmethod(_exact_exp)
@@ -225,6 +237,60 @@ def case_parabola_2d(ctx, n):
         ctx.oblige("parabola_vertex_value_recovered", core.eq(maxi[r], as_[r]), detail={"row": r})
 
 
+def _correlate_same(a, b, mode="full", method="auto"):
+    """exact model of scipy.signal.correlate(a, b, mode='same') for real 1-D inputs (direct sums), validated in setup()"""
+    if mode != "same":
+        raise core.Unsupported("correlate mode")
+    A = list(np.asarray(arrays._plain(a), dtype=object).tolist())
+    B = list(np.asarray(arrays._plain(b), dtype=object).tolist())
+    na, nb = len(A), len(B)
+    full = []
+    for m in range(na + nb - 1):
+        acc = 0
+        for i in range(na):
+            j = i - m + (nb - 1)
+            if 0 <= j < nb:
+                pa, pb = A[i], B[j]
+                if (not isinstance(pa, core.Sym) and pa == 0) or (not isinstance(pb, core.Sym) and pb == 0):
+                    continue
+                acc = acc + pa * pb
+        full.append(acc)
+    start = (len(full) - na) // 2
+    return arrays.mk(full[start:start + na], tag=np.dtype(float))
+
+
+def case_corrmax(ctx, n):
+    """delay estimate between a waveform (three free samples on a silent baseline) and its copy delayed by a whole
+    number of samples s: the cross-correlation peaks at lag s exactly, so the estimate must be s and the re-alignment must
+    ask fshift for -s"""
+    import ibldsp.waveforms as w
+    c = n // 2
+    v = [ctx.real("v0", -10, 10), ctx.real("v1", 1, 10), ctx.real("v2", -10, 10)]
+    smax = (n - 3) // 2 - (1 if n % 2 == 0 else 0)
+    s = ctx.concretize(core._it(ctx.int("s", -smax, smax)))
+    spike = [0.0] * n
+    for k in range(3):
+        spike[c - 1 + k] = v[k]
+    spike2 = [0.0] * n
+    for k in range(3):
+        spike2[c - 1 + k + s] = v[k]
+    calls = []
+
+    def fshift_probe(x, sh, **kw):
+        calls.append((x, sh))
+        return x
+    saved = w.fshift
+    w.fshift = fshift_probe
+    try:
+        res = ctx.call("wave_shift_corrmax", w.wave_shift_corrmax, arrays.mk(spike, tag=np.dtype(float)), arrays.mk(spike2, tag=np.dtype(float)))
+    finally:
+        w.fshift = saved
+    _, shift = res
+    ctx.oblige("delay_estimate_is_the_applied_integer_delay", core.eq(shift, s), detail={"n": n, "s": s, "estimate": shift})
+    ok = len(calls) == 1
+    ctx.oblige("realignment_shifts_the_copy_back_by_the_estimate", ok and core.eq(calls[0][1], -s), detail={"n": n, "s": s, "calls": len(calls)})
+
+
 def cases(tier):
     cs = [Case("shift_1d_n2", "case_shift_1d", {"n": 2}), Case("shift_1d_n4", "case_shift_1d", {"n": 4}, timeout_s=2400)]
     for (r, c, ax) in ((2, 4, 1), (4, 2, 0), (2, 4, -1), (2, 2, 0)) if tier == "quick" else ((2, 4, 1), (4, 2, 0), (2, 4, -1), (2, 2, 0), (2, 2, 1), (3, 4, 1), (4, 3, 0), (4, 4, 0), (4, 4, 1), (1, 4, 1), (4, 1, 0)):
@@ -232,6 +298,8 @@ def cases(tier):
     for n, imax in ((5, 1), (5, 2), (5, 3), (4, 0), (4, 3)):
         cs.append(Case(f"parabola_1d_n{n}_imax{imax}", "case_parabola_1d", {"n": n, "imax": imax}, timeout_s=1500))
     cs.append(Case("parabola_2d_n5", "case_parabola_2d", {"n": 5}, timeout_s=1500))
+    for n in ((7, 8, 9, 10) if tier == "quick" else (7, 8, 9, 10, 11, 12, 13, 14, 15)):
+        cs.append(Case(f"corrmax_integer_delay_n{n}", "case_corrmax", {"n": n}, timeout_s=1500))
     return cs
 
 
@@ -242,6 +310,8 @@ def twins(tier):
         Twin("negated_shift", m, "    W *= np.exp(1j * np.angle(dephas) * s)", "    W *= np.exp(-1j * np.angle(dephas) * s)", ["shift_1d_n4"]),
         Twin("shape_on_wrong_axis", m, "        s_shape[axis] = 1\n", "        s_shape[0] = 1\n", ["shift_2d_2x4_axis1", "shift_2d_2x4_axis-1"]),
         Twin("in_place_on_input", m, "        W = scipy.fft.rfft(w, axis=axis)\n", "        W = scipy.fft.rfft(w, axis=axis)\n        w *= 1\n        w[...] = 0\n", ["shift_1d_n2"]),
+        Twin("corrmax_centre_rounded", "ibldsp.waveforms", "shift_computed = (ipeak - np.floor(sig_len / 2)) * -1", "shift_computed = (ipeak - np.ceil(sig_len / 2)) * -1", ["corrmax_integer_delay_n7", "corrmax_integer_delay_n9"]),
+        Twin("corrmax_resync_wrong_sign", "ibldsp.waveforms", "spike_resync = fshift(spike2, -shift_computed)", "spike_resync = fshift(spike2, shift_computed)", ["corrmax_integer_delay_n7", "corrmax_integer_delay_n8"]),
         Twin("parabola_wrong_matrix", "ibldsp.utils", "np.array([[1, -2, 1], [-1, 0, 1], [0, 2, 0]])", "np.array([[1, -2, 1], [-1, 0, 1], [0, 1, 0]])", ["parabola_1d_n5_imax2"]),
         Twin("parabola_edges_ignored", "ibldsp.utils", "    iedges = np.logical_or(imax == 0, imax == ns - 1)", "    iedges = np.logical_or(imax < 0, imax == ns - 1)", ["parabola_1d_n4_imax0"]),
     ]
@@ -251,6 +321,21 @@ def replay(case, params, cex):
     m = cex["model"]
     from fractions import Fraction
     F = lambda v: float(Fraction(str(v)))
+    if case.startswith("corrmax"):
+        n = params["n"]
+        return f"""
+import ibldsp.waveforms as w
+n, s = {n}, {int(str(m['s']))}
+v = [{F(m['v0'])}, {F(m['v1'])}, {F(m['v2'])}]
+c = n // 2
+spike = np.zeros(n); spike[c - 1:c + 2] = v
+spike2 = np.zeros(n); spike2[c - 1 + s:c + 2 + s] = v
+resync, shift = w.wave_shift_corrmax(spike, spike2)
+print(n, s, v, shift, np.abs(resync - spike).max())
+if abs(shift - s) > 0.05: reproduced(f'delay estimate {{shift}} for a copy delayed by {{s}} samples (n={{n}})')
+if np.abs(resync - spike).max() > 0.05 * np.abs(spike).max(): reproduced(f'the re-aligned copy differs from the waveform by {{np.abs(resync - spike).max()}}')
+not_reproduced()
+"""
     if case.startswith("shift"):
         if case.startswith("shift_1d"):
             n = params["n"]
